@@ -342,15 +342,27 @@ class Run:
         known = load_known()
         os.makedirs(EVIDENCE_DIR, exist_ok=True)
         new, seen_known = [], []
+        def lookup(ident):
+            if (self.prop, ident) in known:
+                return (self.prop, ident)
+            for (p, i) in known:
+                # a listed identity ending in '*' covers the identities that share the prefix (same defect, several sites)
+                if p == self.prop and i.endswith('*') and ident.startswith(i[:-1]):
+                    return (p, i)
+            return None
+        matched = set()
         for ident in sorted(self.viol, key=lambda i: (self.viol[i][0], i)):
             v = self.viol[ident][1]
-            if (self.prop, ident) in known:
+            k = lookup(ident)
+            if k is not None:
                 seen_known.append(ident)
-                print('KNOWN-FINDING: property=%s %s [%s] (%d occurrences)' % (
-                    self.prop, known[(self.prop, ident)].get('what', v['what']), ident, self.viol_count[ident]))
+                if k not in matched:
+                    print('KNOWN-FINDING: property=%s %s [%s] (%d occurrences)' % (
+                        self.prop, known[k].get('what', v['what']), k[1], self.viol_count[ident]))
+                matched.add(k)
             else:
                 new.append(v)
-        stale = [i for (p, i) in known if p == self.prop and i not in self.viol]
+        stale = [i for (p, i) in known if p == self.prop and (p, i) not in matched]
         replay_paths = []
         if os.path.isdir(REPLAY_DIR):
             for fn in os.listdir(REPLAY_DIR):
